@@ -15,8 +15,10 @@ import (
 // VerifNewWithDB is VerifNew on a caller-supplied database handle (opened by the harness through
 // a fault-injecting database/sql driver on the same SQLite file).
 func VerifNewWithDB(dbPath string, database *sql.DB) (*LastGERSync, error) {
-	if err := migrations.RunMigrations(dbPath); err != nil {
-		return nil, err
+	if !db.VerifMigrated(database) {
+		if err := migrations.RunMigrations(dbPath); err != nil {
+			return nil, err
+		}
 	}
 	p := &processor{
 		database: database,
